@@ -516,7 +516,13 @@ class PDFStandardSecurityHandler:
 
     def decrypt_rc4(self, objid: int, genno: int, data: bytes) -> bytes:
         assert self.key is not None
-        key = self.key + struct.pack("<L", objid)[:3] + struct.pack("<L", genno)[:2]
+        # (only the low-order bytes count: a damaged xref entry may carry a
+        # number that does not fit 32 bits)
+        key = (
+            self.key
+            + struct.pack("<L", objid & 0xFFFFFFFF)[:3]
+            + struct.pack("<L", genno & 0xFFFFFFFF)[:2]
+        )
         hash = md5(key)
         key = hash.digest()[: min(len(key), 16)]
         return Arcfour(key).decrypt(data)
@@ -579,8 +585,8 @@ class PDFStandardSecurityHandlerV4(PDFStandardSecurityHandler):
         assert self.key is not None
         key = (
             self.key
-            + struct.pack("<L", objid)[:3]
-            + struct.pack("<L", genno)[:2]
+            + struct.pack("<L", objid & 0xFFFFFFFF)[:3]
+            + struct.pack("<L", genno & 0xFFFFFFFF)[:2]
             + b"sAlT"
         )
         hash = md5(key)
